@@ -70,7 +70,7 @@ def transforms_for(rng, case, tier):
         yield {"kind": "reverse"}, c
     # single-point perturbations
     positions = range(n) if n <= (8 if tier == "quick" else 14) else sorted(rng.sample(range(n), 6))
-    if fn in PERTURB and not (fn == "atten" and case["period"] is None):
+    if fn in PERTURB and not (fn == "atten" and case["period"] is None) and len(case["inp"]) == n:
         for j in positions:
             old = case["inp"][j]
             cands = [None, (old if old is not None else F(0)) + rng.choice([1, -1, 5, F(1, 2), 100])]
@@ -80,7 +80,7 @@ def transforms_for(rng, case, tier):
                 c = copy.deepcopy(case)
                 c["inp"][j] = v
                 yield {"kind": "perturb", "j": j, "v": v}, c
-    if fn in PERTURB_AUX:
+    if fn in PERTURB_AUX and len(case["z"]) == n:
         for j in positions:
             old = case["z"][j]
             v = rng.choice([None, (old if old is not None else F(0)) + rng.choice([1, -1, 20])])
